@@ -223,6 +223,15 @@ def rand_axis(rng, labels, allow_slice=True):
     stop = None if (b == n - 1 and rng.random() < 0.5) else _atom(rng, labels, b)
     a0 = 0 if start is None else a
     b0 = n - 1 if stop is None else b
+    # (round 17, seeded s-C01-i) one slice in ten runs backwards, from b down to a (both named: the end point is included,
+    # as always) - the operations act on the same wells in the opposite order. Drawn from a generator of its own, so that
+    # the selectors of the earlier rounds stay what they were.
+    import random as _random
+    aux = _random.Random(f'backwards:{n}:{a}:{b}:{step}:{start!r}:{stop!r}')
+    if n > 1 and b > a and aux.random() < 0.1:
+        k = step or 1
+        M.bucket('selector/backwards_slice')
+        return slice(_atom(aux, labels, b), _atom(aux, labels, a), -k), list(range(b, a - 1, -k))
     return slice(start, stop, step), list(range(a0, b0 + 1, step or 1))
 
 
